@@ -2,48 +2,52 @@
    lock-delimited phases: Add is atomic (one critical section); the returned
    remove function has three phases (unlink under the lock / close the channel
    outside it / garbage-collect the session entry under the lock, testing the
-   CAPTURED map); CloseSession detaches under the lock and closes outside;
-   SendTo holds the read lock across its send; Broadcast / BroadcastExcept copy
-   the peer list under the read lock and send afterwards, one send at a time.
-   A send on a closed channel is a Go panic: it is counted, never hidden.
+   CURRENT map - since fix 9142741, before it the captured one); CloseSession
+   detaches under the lock and closes outside; SendTo, Broadcast and
+   BroadcastExcept hold the read lock across their sends (since fix c70dc6c;
+   before it the broadcasts sent after releasing the lock), so each of them is
+   one atomic step.  A send on a closed channel is a Go panic: it is counted,
+   never hidden.
+   Representation: a session map is an entry (generation, session, attached?);
+   a connection records the generation of the map it is linked in ([cgen]).
    Hand-written; tied to the code by Corr/C11.v (real Hub, phases forced through
-   verifhook points). *)
+   verifhook points) and by Gen/HubLocks.v (which statements of hub.go run under
+   which lock). *)
 From Coq Require Import List Arith Bool Lia.
 Import ListNotations.
 
 Record conn := mkc {
   cid : nat; cpeer : nat; csid : nat;
+  cgen : option nat;      (* generation of the session map this connection is an entry of *)
   cq : list nat;          (* buffered, undelivered messages (channel contents) *)
   cclosed : bool;         (* channel closed *)
-  cdeliv : list nat;      (* messages the writer goroutine has passed to the socket *)
+  cdeliv : list nat;      (* messages the writer goroutine has taken out of the channel *)
   cacc : list nat         (* ghost: every message ever accepted into the channel, in order *)
 }.
 
-Record smap := mkm { mgen : nat; msid : nat; mconns : list nat; matt : bool }.
-Record rm := mkr { rcid : nat; rgen : nat; rphase : nat }.          (* pending remove() *)
-Record bc := mkb { bid : nat; bsid : nat; bmsg : nat; btodo : list nat }.  (* pending broadcast *)
-Record cs := mks { sidn : nat; stodo : list nat }.                   (* pending CloseSession *)
+Record smap := mkm { mgen : nat; msid : nat; matt : bool }.
+Record rm := mkr { rcid : nat; rphase : nat }.           (* pending remove() *)
+Record cs := mks { sidn : nat; stodo : list nat }.        (* pending CloseSession *)
 
 Record hub := mkh {
   cap : nat;                          (* channel capacity *)
   conns : list conn;
-  maps : list smap;                   (* every session map ever created; at most one attached per session *)
+  maps : list smap;                   (* every session map ever created *)
   bypeer : list (nat * nat * nat);    (* (session, peer, conn) *)
-  rms : list rm; bcs : list bc; css : list cs;
+  rms : list rm; css : list cs;
   npanic : nat;                       (* sends on a closed channel *)
   nextgen : nat;
   bad : bool                          (* an operation was applied out of its program order *)
 }.
 
-Definition init (cap : nat) : hub := mkh cap [] [] [] [] [] [] 0 0 false.
+Definition init (cap : nat) : hub := mkh cap [] [] [] [] [] 0 0 false.
 
 Inductive op :=
 | Add (sid peer c : nat)
 | Rm1 (c : nat) | Rm2 (c : nat) | Rm3 (c : nat)
 | Cs1 (sid : nat) | Cs2 (sid c : nat)
 | SendTo (sid peer m : nat)
-| Bc1 (b sid : nat) (except : option nat) (m : nat)
-| Bc2 (b c : nat)
+| Bcast (sid : nat) (except : option nat) (m : nat)
 | Pop (c : nat)
 | ListOp (sid : nat).
 
@@ -52,6 +56,7 @@ Inductive out := OUnit | OBool (b : bool) | OList (l : list nat).
 (* ---- helpers ---- *)
 Definition remove_nat (x : nat) (l : list nat) : list nat := filter (fun y => negb (Nat.eqb x y)) l.
 Definition mem (x : nat) (l : list nat) : bool := existsb (Nat.eqb x) l.
+Definition ogen_eqb (a : option nat) (g : nat) : bool := match a with Some x => Nat.eqb x g | None => false end.
 
 Fixpoint find_conn (c : nat) (l : list conn) : option conn :=
   match l with [] => None | x :: r => if Nat.eqb (cid x) c then Some x else find_conn c r end.
@@ -59,20 +64,18 @@ Fixpoint find_conn (c : nat) (l : list conn) : option conn :=
 Fixpoint upd_conn (c : nat) (f : conn -> conn) (l : list conn) : list conn :=
   match l with [] => [] | x :: r => if Nat.eqb (cid x) c then f x :: r else x :: upd_conn c f r end.
 
-Fixpoint att_map (sid : nat) (l : list smap) : option smap :=
+(* generation of the attached map of a session (the Go lookup h.sessions[sid]) *)
+Fixpoint att_gen (sid : nat) (l : list smap) : option nat :=
   match l with
   | [] => None
-  | m :: r => if Nat.eqb (msid m) sid && matt m then Some m else att_map sid r
+  | m :: r => if Nat.eqb (msid m) sid && matt m then Some (mgen m) else att_gen sid r
   end.
 
-Fixpoint find_gen (g : nat) (l : list smap) : option smap :=
-  match l with [] => None | m :: r => if Nat.eqb (mgen m) g then Some m else find_gen g r end.
-
-Fixpoint upd_gen (g : nat) (f : smap -> smap) (l : list smap) : list smap :=
-  match l with [] => [] | m :: r => if Nat.eqb (mgen m) g then f m :: r else m :: upd_gen g f r end.
-
 Definition detach_sid (sid : nat) (l : list smap) : list smap :=
-  map (fun m => if Nat.eqb (msid m) sid && matt m then mkm (mgen m) (msid m) (mconns m) false else m) l.
+  map (fun m => if Nat.eqb (msid m) sid && matt m then mkm (mgen m) (msid m) false else m) l.
+
+Definition members (g : nat) (l : list conn) : list nat :=
+  map cid (filter (fun x => ogen_eqb (cgen x) g) l).
 
 Fixpoint bp_find (sid peer : nat) (l : list (nat * nat * nat)) : option nat :=
   match l with
@@ -84,17 +87,25 @@ Definition bp_del (sid peer : nat) (l : list (nat * nat * nat)) :=
 Definition bp_del_sid (sid : nat) (l : list (nat * nat * nat)) :=
   filter (fun e => match e with (s, _, _) => negb (Nat.eqb s sid) end) l.
 
-Definition set_conns h v := mkh (cap h) v (maps h) (bypeer h) (rms h) (bcs h) (css h) (npanic h) (nextgen h) (bad h).
-Definition set_maps h v := mkh (cap h) (conns h) v (bypeer h) (rms h) (bcs h) (css h) (npanic h) (nextgen h) (bad h).
-Definition set_bypeer h v := mkh (cap h) (conns h) (maps h) v (rms h) (bcs h) (css h) (npanic h) (nextgen h) (bad h).
-Definition set_rms h v := mkh (cap h) (conns h) (maps h) (bypeer h) v (bcs h) (css h) (npanic h) (nextgen h) (bad h).
-Definition set_bcs h v := mkh (cap h) (conns h) (maps h) (bypeer h) (rms h) v (css h) (npanic h) (nextgen h) (bad h).
-Definition set_css h v := mkh (cap h) (conns h) (maps h) (bypeer h) (rms h) (bcs h) v (npanic h) (nextgen h) (bad h).
-Definition set_bad h := mkh (cap h) (conns h) (maps h) (bypeer h) (rms h) (bcs h) (css h) (npanic h) (nextgen h) true.
-Definition add_panic h := mkh (cap h) (conns h) (maps h) (bypeer h) (rms h) (bcs h) (css h) (S (npanic h)) (nextgen h) (bad h).
+Definition set_conns h v := mkh (cap h) v (maps h) (bypeer h) (rms h) (css h) (npanic h) (nextgen h) (bad h).
+Definition set_maps h v := mkh (cap h) (conns h) v (bypeer h) (rms h) (css h) (npanic h) (nextgen h) (bad h).
+Definition set_bypeer h v := mkh (cap h) (conns h) (maps h) v (rms h) (css h) (npanic h) (nextgen h) (bad h).
+Definition set_rms h v := mkh (cap h) (conns h) (maps h) (bypeer h) v (css h) (npanic h) (nextgen h) (bad h).
+Definition set_css h v := mkh (cap h) (conns h) (maps h) (bypeer h) (rms h) v (npanic h) (nextgen h) (bad h).
+Definition set_bad h := mkh (cap h) (conns h) (maps h) (bypeer h) (rms h) (css h) (npanic h) (nextgen h) true.
+Definition add_panic h := mkh (cap h) (conns h) (maps h) (bypeer h) (rms h) (css h) (S (npanic h)) (nextgen h) (bad h).
 
-Definition close_conn (c : nat) (h : hub) : hub :=
-  set_conns h (upd_conn c (fun x => mkc (cid x) (cpeer x) (csid x) (cq x) true (cdeliv x) (cacc x)) (conns h)).
+Definition c_close (x : conn) : conn := mkc (cid x) (cpeer x) (csid x) (cgen x) (cq x) true (cdeliv x) (cacc x).
+Definition c_unlink (x : conn) : conn := mkc (cid x) (cpeer x) (csid x) None (cq x) (cclosed x) (cdeliv x) (cacc x).
+Definition c_push (m : nat) (x : conn) : conn := mkc (cid x) (cpeer x) (csid x) (cgen x) (cq x ++ [m]) (cclosed x) (cdeliv x) (cacc x ++ [m]).
+Definition c_pop (x : conn) : conn :=
+  match cq x with
+  | m :: r => mkc (cid x) (cpeer x) (csid x) (cgen x) r (cclosed x) (cdeliv x ++ [m]) (cacc x)
+  | [] => x
+  end.
+
+Definition close_conn (c : nat) (h : hub) : hub := set_conns h (upd_conn c c_close (conns h)).
+Definition unlink_conn (c : nat) (h : hub) : hub := set_conns h (upd_conn c c_unlink (conns h)).
 
 (* `select { case pc.send <- env: default: }` *)
 Definition enqueue (c m : nat) (h : hub) : hub :=
@@ -102,20 +113,19 @@ Definition enqueue (c m : nat) (h : hub) : hub :=
   | None => set_bad h
   | Some x =>
     if cclosed x then add_panic h
-    else if length (cq x) <? cap h then
-      set_conns h (upd_conn c (fun x => mkc (cid x) (cpeer x) (csid x) (cq x ++ [m]) (cclosed x) (cdeliv x) (cacc x ++ [m])) (conns h))
+    else if length (cq x) <? cap h then set_conns h (upd_conn c (c_push m) (conns h))
     else h
   end.
 
 Fixpoint find_rm (c : nat) (l : list rm) : option rm :=
   match l with [] => None | r :: t => if Nat.eqb (rcid r) c then Some r else find_rm c t end.
 Definition del_rm (c : nat) (l : list rm) := filter (fun r => negb (Nat.eqb (rcid r) c)) l.
-Fixpoint find_bc (b : nat) (l : list bc) : option bc :=
-  match l with [] => None | r :: t => if Nat.eqb (bid r) b then Some r else find_bc b t end.
-Definition del_bc (b : nat) (l : list bc) := filter (fun r => negb (Nat.eqb (bid r) b)) l.
 Fixpoint find_cs (s : nat) (l : list cs) : option cs :=
   match l with [] => None | r :: t => if Nat.eqb (sidn r) s then Some r else find_cs s t end.
 Definition del_cs (s : nat) (l : list cs) := filter (fun r => negb (Nat.eqb (sidn r) s)) l.
+
+Definition linked_in (c g : nat) (h : hub) : bool :=
+  match find_conn c (conns h) with Some x => ogen_eqb (cgen x) g | None => false end.
 
 Definition step (h : hub) (o : op) : hub * out :=
   match o with
@@ -123,46 +133,43 @@ Definition step (h : hub) (o : op) : hub * out :=
     match find_conn c (conns h) with
     | Some _ => (set_bad h, OUnit)          (* connection ids are unique *)
     | None =>
-      let h1 := set_conns h (conns h ++ [mkc c peer sid [] false [] []]) in
       (* ensure a session map *)
-      let '(h2, g) := match att_map sid (maps h1) with
-                      | Some m => (h1, mgen m)
-                      | None => (mkh (cap h1) (conns h1) (maps h1 ++ [mkm (nextgen h1) sid [] true]) (bypeer h1)
-                                     (rms h1) (bcs h1) (css h1) (npanic h1) (S (nextgen h1)) (bad h1), nextgen h1)
+      let '(h2, g) := match att_gen sid (maps h) with
+                      | Some g => (h, g)
+                      | None => (mkh (cap h) (conns h) (maps h ++ [mkm (nextgen h) sid true]) (bypeer h)
+                                     (rms h) (css h) (npanic h) (S (nextgen h)) (bad h), nextgen h)
                       end in
       (* last write wins *)
       let h3 := match bp_find sid peer (bypeer h2) with
                 | Some old =>
-                  let inmap := match find_gen g (maps h2) with Some m => mem old (mconns m) | None => false end in
-                  let h' := if inmap then close_conn old h2 else h2 in
-                  set_bypeer (set_maps h' (upd_gen g (fun m => mkm (mgen m) (msid m) (remove_nat old (mconns m)) (matt m)) (maps h')))
-                             (bp_del sid peer (bypeer h'))
+                  let h' := if linked_in old g h2 then unlink_conn old (close_conn old h2) else h2 in
+                  set_bypeer h' (bp_del sid peer (bypeer h'))
                 | None => h2
                 end in
-      let h4 := set_maps h3 (upd_gen g (fun m => mkm (mgen m) (msid m) (mconns m ++ [c]) (matt m)) (maps h3)) in
+      let h4 := set_conns h3 (conns h3 ++ [mkc c peer sid (Some g) [] false [] []]) in
       (set_bypeer h4 (bypeer h4 ++ [(sid, peer, c)]), OUnit)
     end
   | Rm1 c =>
     match find_conn c (conns h), find_rm c (rms h) with
     | Some x, None =>
-      match att_map (csid x) (maps h) with
-      | None => (h, OBool false)                       (* session gone: remove() returns *)
-      | Some m =>
-        if negb (mem c (mconns m)) then (h, OBool false) (* replaced: remove() returns *)
+      match att_gen (csid x) (maps h) with
+      | None => (h, OBool false)                              (* session gone: remove() returns *)
+      | Some g =>
+        if negb (ogen_eqb (cgen x) g) then (h, OBool false)   (* replaced: remove() returns *)
         else
-          let h1 := set_maps h (upd_gen (mgen m) (fun m => mkm (mgen m) (msid m) (remove_nat c (mconns m)) (matt m)) (maps h)) in
+          let h1 := unlink_conn c h in
           let h2 := match bp_find (csid x) (cpeer x) (bypeer h1) with
                     | Some c' => if Nat.eqb c' c then set_bypeer h1 (bp_del (csid x) (cpeer x) (bypeer h1)) else h1
                     | None => h1
                     end in
-          (set_rms h2 (rms h2 ++ [mkr c (mgen m) 1]), OBool true)
+          (set_rms h2 (rms h2 ++ [mkr c 1]), OBool true)
       end
     | _, _ => (set_bad h, OUnit)
     end
   | Rm2 c =>
     match find_rm c (rms h) with
     | Some r => if Nat.eqb (rphase r) 1
-                then (set_rms (close_conn c h) (map (fun r' => if Nat.eqb (rcid r') c then mkr c (rgen r') 2 else r') (rms h)), OUnit)
+                then (set_rms (close_conn c h) (map (fun r' => if Nat.eqb (rcid r') c then mkr c 2 else r') (rms h)), OUnit)
                 else (set_bad h, OUnit)
     | None => (set_bad h, OUnit)
     end
@@ -170,7 +177,10 @@ Definition step (h : hub) (o : op) : hub * out :=
     match find_rm c (rms h), find_conn c (conns h) with
     | Some r, Some x =>
       if negb (Nat.eqb (rphase r) 2) then (set_bad h, OUnit) else
-      let empty := match find_gen (rgen r) (maps h) with Some m => match mconns m with [] => true | _ => false end | None => false end in
+      let empty := match att_gen (csid x) (maps h) with
+                   | Some g => match members g (conns h) with [] => true | _ => false end
+                   | None => false
+                   end in
       let h1 := set_rms h (del_rm c (rms h)) in
       if empty then (set_bypeer (set_maps h1 (detach_sid (csid x) (maps h1))) (bp_del_sid (csid x) (bypeer h1)), OUnit)
       else (h1, OUnit)
@@ -180,11 +190,12 @@ Definition step (h : hub) (o : op) : hub * out :=
     match find_cs sid (css h) with
     | Some _ => (set_bad h, OUnit)
     | None =>
-      match att_map sid (maps h) with
+      match att_gen sid (maps h) with
       | None => (h, OList [])
-      | Some m =>
+      | Some g =>
+        let todo := members g (conns h) in
         let h1 := set_bypeer (set_maps h (detach_sid sid (maps h))) (bp_del_sid sid (bypeer h)) in
-        (set_css h1 (css h1 ++ [mks sid (mconns m)]), OList (mconns m))
+        (match todo with [] => h1 | _ => set_css h1 (css h1 ++ [mks sid todo]) end, OList todo)
       end
     end
   | Cs2 sid c =>
@@ -202,50 +213,28 @@ Definition step (h : hub) (o : op) : hub * out :=
     match bp_find sid peer (bypeer h) with
     | None => (h, OBool false)
     | Some c =>
-      match att_map sid (maps h) with
+      match att_gen sid (maps h) with
       | None => (h, OBool false)
-      | Some mp => if mem c (mconns mp) then (enqueue c m h, OBool true) else (h, OBool false)
+      | Some g => if linked_in c g h then (enqueue c m h, OBool true) else (h, OBool false)
       end
     end
-  | Bc1 b sid except m =>
-    match find_bc b (bcs h) with
-    | Some _ => (set_bad h, OUnit)
-    | None =>
-      match att_map sid (maps h) with
-      | None => (h, OList [])
-      | Some mp =>
-        let ex := match except with Some p => bp_find sid p (bypeer h) | None => None end in
-        let todo := match ex with Some c => remove_nat c (mconns mp) | None => mconns mp end in
-        match todo with
-        | [] => (h, OList [])
-        | _ => (set_bcs h (bcs h ++ [mkb b sid m todo]), OList todo)
-        end
-      end
-    end
-  | Bc2 b c =>
-    match find_bc b (bcs h) with
-    | Some r =>
-      if mem c (btodo r) then
-        let todo := remove_nat c (btodo r) in
-        let h1 := enqueue c (bmsg r) h in
-        (set_bcs h1 (match todo with [] => del_bc b (bcs h1)
-                                   | _ => map (fun r' => if Nat.eqb (bid r') b then mkb b (bsid r') (bmsg r') todo else r') (bcs h1) end), OUnit)
-      else (set_bad h, OUnit)
-    | None => (set_bad h, OUnit)
+  | Bcast sid except m =>
+    match att_gen sid (maps h) with
+    | None => (h, OList [])
+    | Some g =>
+      let ex := match except with Some p => bp_find sid p (bypeer h) | None => None end in
+      let todo := match ex with Some c => remove_nat c (members g (conns h)) | None => members g (conns h) end in
+      (fold_left (fun h' c => enqueue c m h') todo h, OList todo)
     end
   | Pop c =>
     match find_conn c (conns h) with
-    | Some x =>
-      match cq x with
-      | m :: r => (set_conns h (upd_conn c (fun x => mkc (cid x) (cpeer x) (csid x) r (cclosed x) (cdeliv x ++ [m]) (cacc x)) (conns h)), OUnit)
-      | [] => (h, OUnit)
-      end
+    | Some x => (set_conns h (upd_conn c c_pop (conns h)), OUnit)
     | None => (set_bad h, OUnit)
     end
   | ListOp sid =>
-    match att_map sid (maps h) with
+    match att_gen sid (maps h) with
     | None => (h, OList [])
-    | Some m => (h, OList (mconns m))
+    | Some g => (h, OList (members g (conns h)))
     end
   end.
 
